@@ -16,11 +16,11 @@ type VNone struct{}
 type VErr int
 type VPanic struct{}
 
-func N(i int) Val        { return VN{big.NewInt(int64(i))} }
-func NU(i uint64) Val    { return VN{new(big.Int).SetUint64(i)} }
-func NB(i *big.Int) Val  { return VN{new(big.Int).Set(i)} }
-func B(b []byte) Val     { return VB(append([]byte{}, b...)) }
-func L(vs ...Val) Val    { return VL(vs) }
+func N(i int) Val       { return VN{big.NewInt(int64(i))} }
+func NU(i uint64) Val   { return VN{new(big.Int).SetUint64(i)} }
+func NB(i *big.Int) Val { return VN{new(big.Int).Set(i)} }
+func B(b []byte) Val    { return VB(append([]byte{}, b...)) }
+func L(vs ...Val) Val   { return VL(vs) }
 func Bool(b bool) Val {
 	if b {
 		return N(1)
@@ -30,14 +30,63 @@ func Bool(b bool) Val {
 
 func (v VN) Coq(sb *strings.Builder) { fmt.Fprintf(sb, "VN %s", v.N.String()) }
 func (v VB) Coq(sb *strings.Builder) {
-	sb.WriteString("VB [")
-	for i, x := range v {
-		if i > 0 {
-			sb.WriteByte(';')
+	// a list literal of tens of thousands of numerals takes Coq minutes to parse (and overflows its stack): long
+	// runs of the test pattern x, x%7+1, ... are written as (patb len first), literal pieces in chunks
+	lit := func(b []byte) {
+		sb.WriteString("[")
+		for i, x := range b {
+			if i > 0 {
+				sb.WriteByte(';')
+			}
+			fmt.Fprintf(sb, "%d", x)
 		}
-		fmt.Fprintf(sb, "%d", x)
+		sb.WriteString("]")
 	}
-	sb.WriteString("]")
+	sb.WriteString("VB ")
+	if len(v) <= 1500 {
+		lit(v)
+		return
+	}
+	var segs []string
+	flush := func(b []byte) {
+		for len(b) > 0 {
+			n := len(b)
+			if n > 1500 {
+				n = 1500
+			}
+			var t strings.Builder
+			old := sb
+			sb = &t
+			lit(b[:n])
+			sb = old
+			segs = append(segs, t.String())
+			b = b[n:]
+		}
+	}
+	start := 0
+	for i := 0; i < len(v); {
+		j := i
+		for j+1 < len(v) && v[j] >= 1 && v[j] <= 7 && v[j+1] == v[j]%7+1 {
+			j++
+		}
+		if j-i+1 >= 200 {
+			flush(v[start:i])
+			segs = append(segs, fmt.Sprintf("(patb (N.to_nat %d) %d)", j-i+1, v[i]))
+			i = j + 1
+			start = i
+		} else {
+			i = j + 1
+		}
+	}
+	flush(v[start:])
+	for i, sg := range segs {
+		if i < len(segs)-1 {
+			sb.WriteString("(app " + sg + " ")
+		} else {
+			sb.WriteString(sg)
+		}
+	}
+	sb.WriteString(strings.Repeat(")", len(segs)-1))
 }
 func (v VL) Coq(sb *strings.Builder) {
 	sb.WriteString("VL [")
@@ -71,6 +120,8 @@ type Case struct {
 
 // guard runs f and maps a panic to VPanic.
 func guard(f func() Val) (out Val) {
+	watch("a guarded library call (see the last recorded case)")
+	defer watch("")
 	defer func() {
 		if r := recover(); r != nil {
 			out = VPanic{}
